@@ -11,12 +11,13 @@
 (***************************************************************************)
 EXTENDS Legacy, Json
 
-CONSTANTS MaxOps, MaxHandles, GenClasses, MaxKids, Ops, Modes, DupModes, Atoms
+CONSTANTS MaxOps, MaxHandles, GenClasses, MaxKids, Ops, Modes, DupModes, Atoms,
+          Prelude      \* a program run before the exploration starts (<<>>: start from nothing); counts towards MaxOps
 
 VARIABLES S,        \* the machine state [obj, reg]
           nh,       \* handles handed out so far (a rejected creating operation uses one up)
           hist,     \* the program that led here
-          last,     \* what the last operation did: [err, partial, same, pre (the state before was clean)]
+          last,     \* what the last operation did: [err, partial, same, pre (the state before was clean and never had nested id twins)]
           clean,    \* every operation so far succeeded and no node sits at two positions
           twin      \* some state so far had a node sharing its id with a node below it
 vars == <<S, nh, hist, last, clean, twin>>
@@ -34,6 +35,10 @@ KidLists(c) ==
     ELSE UNION {[1..n -> Hs] : n \in 0..MaxKids}
 
 Below(n) == Reach(S.obj, n)
+(* the node and its parents along the stored links (a link can point to a node that does not hold the child) *)
+RECURSIVE UpFrom(_, _)
+UpFrom(n, fuel) == IF n = None \/ fuel = 0 THEN {} ELSE {n} \cup UpFrom(Parent(S, n), fuel - 1)
+Up(n) == UpFrom(n, Cardinality(Names(S)) + 1)
 Positions(T) == UNION {{<<KidsOf(T, n)[j].n, n, j>> : j \in 1..Len(KidsOf(T, n))} : n \in {m \in Names(T) : ~Detached(T, m)}}
 NoDouble(T) == \A x, y \in Positions(T) : x[1] = y[1] => x = y
 TwinNested(T) == \E n \in Names(T) : \E m \in Reach(T.obj, n) \ {n} : T.obj[m].id = T.obj[n].id
@@ -48,7 +53,7 @@ Do(op) ==
        /\ nh' <= MaxHandles
        /\ S' = r.S
        /\ hist' = Append(hist, op)
-       /\ last' = [err |-> r.err, partial |-> r.partial, same |-> r.S = S, pre |-> clean]
+       /\ last' = [err |-> r.err, partial |-> r.partial, same |-> r.S = S, pre |-> clean /\ ~twin]
        /\ clean' = (clean /\ r.err = "" /\ NoDouble(r.S))
        /\ twin' = (twin \/ TwinNested(r.S))
 
@@ -62,16 +67,24 @@ Next ==
          \/ Do(Op("detach_self", "", a, 0, <<>>, 0, ""))
          \/ Cls(a) \in LeafLike /\ \E at \in Atoms : Do(Op("replace_prop", "", a, 0, <<>>, at, ""))
          \/ Cls(a) \notin LeafLike /\ \E k \in KidLists(Cls(a)) :
-               /\ \A j \in 1..Len(k) : H(a) \notin Below(H(k[j]))        \* the harness does not build cycles
+               /\ \A j \in 1..Len(k) : Below(H(k[j])) \cap Up(H(a)) = {}    \* the harness does not build cycles
                /\ Do(Op("replace_kids", "", a, 0, k, 0, ""))
          \/ Do(Op("replace_bad", "", a, 0, <<>>, 0, ""))
-         \/ \E b \in Hs \ {a} : /\ H(a) \notin Below(H(b)) /\ H(b) \notin Below(H(a))
+         \/ \E b \in Hs \ {a} : /\ Below(H(b)) \cap Up(H(a)) = {} /\ H(b) \notin Below(H(a))
                                 /\ Do(Op("replace_with", "", a, b, <<>>, 0, ""))
          \/ Do(Op("replace_with_none", "", a, 0, <<>>, 0, ""))
          \/ \E dm \in DupModes : Do(Op("duplicate", "", a, 0, <<>>, 0, dm))
 
-Init == /\ S = [obj |-> <<>>, reg |-> <<>>]
-        /\ nh = 0 /\ hist = <<>> /\ last = [err |-> "", partial |-> FALSE, same |-> TRUE, pre |-> TRUE]
+RECURSIVE RunFrom(_, _, _)
+RunFrom(T, n, ops) ==
+    IF ops = <<>> THEN [S |-> T, nh |-> n]
+    ELSE LET op == Head(ops)
+             r == Apply(T, op, H(n + 1), IF op.op = "create" THEN IdKeyStr(T, CreateArgs(T, op).c, CreateArgs(T, op).o, CreateArgs(T, op).p, CreateArgs(T, op).k) ELSE "")
+         IN RunFrom(r.S, IF op.op \in Creating THEN n + 1 ELSE n, Tail(ops))
+
+Init == LET st == RunFrom([obj |-> <<>>, reg |-> <<>>], 0, Prelude) IN
+        /\ S = st.S
+        /\ nh = st.nh /\ hist = Prelude /\ last = [err |-> "", partial |-> FALSE, same |-> TRUE, pre |-> TRUE]
         /\ clean = TRUE /\ twin = FALSE
 
 (* states are compared without the program that reached them: one witness per distinct state *)
@@ -100,7 +113,9 @@ UnguardedC18 == clean => (ChildrenAttached /\ ParentBackLink)
 UnguardedC19 == last.pre /\ last.err # "" => last.same
 
 (* C19 on the design: a rejected operation leaves the state as it was, unless the rejection came out of the attach
-   phase after earlier children had been linked / registered (the recorded deviation partial-attach-effects) *)
+   phase after earlier children had been linked / registered (the recorded deviation partial-attach-effects).
+   Histories with nested id twins are left out as in C18: there the state before the call is already inconsistent
+   (e.g. a child whose stored index is not its position), and a rollback that re-links the children "changes" it. *)
 C19Frame == last.pre /\ last.err # "" => (last.same \/ last.partial)
 (* the deviation never goes with the errors that are raised before any effect *)
 C19EarlyErrorsClean == last.pre /\ last.err \in {"ASTNodeDuplicateChildrenError", "ASTNodeIDCollisionError", "ASTNodeReplaceError"} => last.same
